@@ -17,13 +17,10 @@ Import ListNotations.
 Open Scope N_scope.
 
 (* ---- the tie to the source: the tables regenerated from the Rust text are consistent (same constant on the emitting and the
-   parsing side of every field, every field reachable through its own key, every type name known, the magic bytes, TapTree
-   only as the value of the output field tap_tree).  A changed constant or a dropped field changes these tables. *)
+   parsing side of every field, every field reachable through its own key, every type name known, the magic bytes).  A changed constant or a dropped field changes these tables. *)
 Theorem C07_tables_consistent : forall maxvec c1 c2 c3 c4 o1 o2 o3 o4 o5 h1 h2 h3 h4 h5 h6,
   tables_ok maxvec c1 c2 c3 c4 o1 o2 o3 o4 o5 h1 h2 h3 h4 h5 h6 = true.
 Proof. intros. vm_compute. reflexivity. Qed.
-Theorem C07_taptree_only : taptree_only = true.
-Proof. vm_compute. reflexivity. Qed.
 
 Section C07.
 Variable maxvec : N.
@@ -37,7 +34,6 @@ Variables Hleaf Hbranch : bytes -> bytes.
 Notation SER := (pset_serialize maxvec cap_txin cap_txout cap_vecu8 cap_h32 pt_ok pk_ok xonly_ok btctx_ok xpub_ok Hrip Hsha Hh160 Hh256 Hleaf Hbranch).
 Notation DESER := (pset_deserialize maxvec cap_txin cap_txout cap_vecu8 cap_h32 pt_ok pk_ok xonly_ok btctx_ok xpub_ok Hrip Hsha Hh160 Hh256 Hleaf Hbranch).
 Notation WF := (wf_pset_c maxvec cap_txin cap_txout cap_vecu8 cap_h32 pt_ok pk_ok xonly_ok btctx_ok xpub_ok Hrip Hsha Hh160 Hh256 Hleaf Hbranch).
-Notation STABLE := (taptrees_stable maxvec cap_txin cap_txout cap_vecu8 cap_h32 pt_ok pk_ok xonly_ok btctx_ok xpub_ok Hrip Hsha Hh160 Hh256 Hleaf Hbranch).
 Notation EQUIV := (pset_equiv maxvec Hleaf Hbranch).
 Notation TG := (Tg maxvec cap_txin cap_txout cap_vecu8 cap_h32 pt_ok pk_ok xonly_ok btctx_ok xpub_ok Hrip Hsha Hh160 Hh256 Hleaf Hbranch).
 Notation TI := (Ti maxvec cap_txin cap_txout cap_vecu8 cap_h32 pt_ok pk_ok xonly_ok btctx_ok xpub_ok Hrip Hsha Hh160 Hh256 Hleaf Hbranch).
@@ -65,31 +61,30 @@ Proof. exact (rt_text_c maxvec Hmax Hmin cap_txin cap_txout cap_vecu8 cap_h32 pt
 Theorem C07_base64 : forall bs, b64_dec (b64_enc bs) = Some bs.
 Proof. exact b64_roundtrip. Qed.
 
-(* ---- what the decoder accepts is well-formed (all acceptance rules hold of its output) ----
-   `STABLE p`: every tap_tree value stored in an output is a fixed point of the TapTree canoniser.  This is the complement
-   of the known class of finding F9 (a tap tree with >= 2 leaves is re-written in reversed leaf order); a single-leaf tree is
-   stable (C07_single_leaf_stable).  Full statement, which is FALSE of the code (C07_taptree_fixpoint_refuted):
-     forall bs p, DESER bs = POk p -> let c := SER p in exists p', DESER c = POk p' /\ p' ≈ p /\ SER p' = c            *)
-Theorem C07_decoder_wf : forall bs p, DESER bs = POk p -> STABLE p -> WF p.
-Proof. exact (deserialize_wf_c maxvec Hmax Hmin cap_txin cap_txout cap_vecu8 cap_h32 pt_ok pk_ok xonly_ok btctx_ok xpub_ok Hrip Hsha Hh160 Hh256 Hleaf Hbranch C07_taptree_only). Qed.
-(* ---- for every accepted byte string, decode-then-encode gives a canonical byte string that decodes to an equal PSET and
-   re-encodes to itself (restricted to ~Known = STABLE) ---- *)
-Theorem C07_fixpoint : forall bs p, DESER bs = POk p -> STABLE p ->
+(* ---- what the decoder accepts is well-formed: all acceptance rules hold of its output ---- *)
+Theorem C07_decoder_wf : forall bs p, DESER bs = POk p -> WF p.
+Proof. exact (deserialize_wf_c maxvec Hmax Hmin cap_txin cap_txout cap_vecu8 cap_h32 pt_ok pk_ok xonly_ok btctx_ok xpub_ok Hrip Hsha Hh160 Hh256 Hleaf Hbranch). Qed.
+(* ---- for EVERY accepted byte string, decode-then-encode gives a canonical byte string that decodes to an equal PSET and
+   re-encodes to itself (no exception class since fix aee9a45; the former refutation C07_taptree_fixpoint_refuted is gone) ---- *)
+Theorem C07_fixpoint : forall bs p, DESER bs = POk p ->
   let c := SER p in exists p', DESER c = POk p' /\ EQUIV p' p /\ SER p' = c.
-Proof. exact (fixpoint_full_c maxvec Hmax Hmin cap_txin cap_txout cap_vecu8 cap_h32 pt_ok pk_ok xonly_ok btctx_ok xpub_ok Hrip Hsha Hh160 Hh256 Hleaf Hbranch C07_taptree_only). Qed.
-Theorem C07_single_leaf_stable : forall v s, leafver_ok (b2n v) = true -> N.of_nat (length s) <= maxvec ->
-  canon_taptree maxvec Hleaf Hbranch (x00 :: v :: enc (c_varbytes maxvec) s) = POk (x00 :: v :: enc (c_varbytes maxvec) s).
-Proof. exact (taptree_single maxvec Hmax Hmin pt_ok pk_ok xonly_ok btctx_ok xpub_ok Hrip Hsha Hh160 Hh256 Hleaf Hbranch). Qed.
-(* the laws of the value canonisers the fixpoint rests on: idempotent (every type but TapTree) and never lengthening (every type) *)
-Theorem C07_canon_idempotent : forall t k v c, t <> TyTapTree -> VCANON t k v = POk c -> VCANON t k c = POk c.
+Proof. exact (fixpoint_full_c maxvec Hmax Hmin cap_txin cap_txout cap_vecu8 cap_h32 pt_ok pk_ok xonly_ok btctx_ok xpub_ok Hrip Hsha Hh160 Hh256 Hleaf Hbranch). Qed.
+(* the laws of the value canonisers the fixpoint rests on: idempotent and never lengthening, for every type; for TapTree
+   (through the C15 builder model and its completeness theorem) Deserialize then Serialize is the identity on accepted bytes *)
+Theorem C07_canon_idempotent : forall t k v c, VCANON t k v = POk c -> VCANON t k c = POk c.
 Proof. exact (vcanon_idem maxvec cap_txin cap_txout cap_vecu8 cap_h32 pt_ok pk_ok xonly_ok btctx_ok xpub_ok Hrip Hsha Hh160 Hh256 Hleaf Hbranch). Qed.
 Theorem C07_canon_size : forall t k v c, VCANON t k v = POk c -> (length c <= length v)%nat.
 Proof. exact (vcanon_size maxvec cap_txin cap_txout cap_vecu8 cap_h32 pt_ok pk_ok xonly_ok btctx_ok xpub_ok Hrip Hsha Hh160 Hh256 Hleaf Hbranch). Qed.
+Theorem C07_taptree_identity : forall v c, canon_taptree maxvec Hleaf Hbranch v = POk c -> c = v.
+Proof. exact (taptree_id maxvec Hleaf Hbranch). Qed.
+(* commitments and generators are exactly 33 bytes (fix 838e50c) *)
+Theorem C07_commitment_length : forall k v c, (VCANON TyPedersen k v = POk c \/ VCANON TyGenerator k v = POk c) -> c = v /\ length v = 33%nat.
+Proof. exact (commitment_length maxvec cap_txin cap_txout cap_vecu8 cap_h32 pt_ok pk_ok xonly_ok btctx_ok xpub_ok Hrip Hsha Hh160 Hh256 Hleaf Hbranch). Qed.
 
 (* ---- rejections ---- *)
-(* duplicate keys: in any map (any field table T), an encoding in which the same raw key occurs twice is rejected, unless the
-   key addresses a field that is assigned without the is_none() test (KOptLast: only the global elements tx-modifiable flag,
-   finding F17, C07_dup_global_flag_refuted) *)
+(* duplicate keys: in any map (any field table T), an encoding in which the same raw key occurs twice is rejected, provided the key
+   does not address a field assigned without the is_none() test (KOptLast) — and no field of the three regenerated tables is
+   such a field any more (fix f6f7db3; C07_no_unchecked_assignment), so C07_rejects_duplicate_tables has no side condition *)
 Theorem C07_rejects_duplicate : forall (T : table) fuel (a : list rpair) key v1 (b : list rpair) v2 tail m i kd r,
   Forall (fits maxvec) a -> fits maxvec (key, v1) -> Forall (fits maxvec) b -> fits maxvec (key, v2) ->
   classify maxvec T key = POk (i, kd) -> nth_error T i = Some r -> r_kind r <> KOptLast ->
@@ -100,6 +95,12 @@ Theorem C07_rejects_duplicate_any : forall (T : table) fuel (a : list rpair) key
   (forall i kd r, classify maxvec T key = POk (i, kd) -> nth_error T i = Some r -> r_kind r <> KOptLast) ->
   exists e, dec_entries maxvec T fuel (enc_pairs maxvec a ++ enc_pair maxvec (key, v1) ++ enc_pairs maxvec b ++ enc_pair maxvec (key, v2) ++ tail) m = PErr e.
 Proof. intros T. exact (dup_rejected_any maxvec Hmax T). Qed.
+Theorem C07_no_unchecked_assignment : forall T, In T [TG; TI; TO] -> forall i r, nth_error T i = Some r -> r_kind r <> KOptLast.
+Proof. intros T H i r. apply no_optlast_row. destruct H as [E|[E|[E|[]]]]; subst T; vm_compute; reflexivity. Qed.
+Theorem C07_rejects_duplicate_tables : forall T, In T [TG; TI; TO] -> forall fuel (a : list rpair) key v1 (b : list rpair) v2 tail m,
+  Forall (fits maxvec) a -> fits maxvec (key, v1) -> Forall (fits maxvec) b -> fits maxvec (key, v2) ->
+  exists e, dec_entries maxvec T fuel (enc_pairs maxvec a ++ enc_pair maxvec (key, v1) ++ enc_pairs maxvec b ++ enc_pair maxvec (key, v2) ++ tail) m = PErr e.
+Proof. intros T H fuel a key v1 b v2 tail m Fa F1 Fb F2. apply (C07_rejects_duplicate_any T); auto. intros i kd r _ R. now apply (C07_no_unchecked_assignment T H i r). Qed.
 (* missing mandatory fields: an accepted map has every mandatory field of its table (global: tx version, counts, version = 2;
    input: previous txid and index; output: script and the four completeness rules, which are `posto`) *)
 Theorem C07_rejects_missing_global : forall bs m rest, dec_map maxvec TG POSTG bs = POk (m, rest) ->
@@ -111,7 +112,7 @@ Theorem C07_rejects_missing_output : forall bs m rest, dec_map maxvec TO POSTO b
 Proof. exact (missing_o maxvec cap_txin cap_txout cap_vecu8 cap_h32 pt_ok pk_ok xonly_ok btctx_ok xpub_ok Hrip Hsha Hh160 Hh256 Hleaf Hbranch). Qed.
 (* inconsistent counts: whatever is accepted has declared counts equal to the number of maps, and nothing after the last map *)
 Theorem C07_rejects_count : forall bs p, DESER bs = POk p -> sanity_check n_inputs n_outputs p = true.
-Proof. exact (counts_c maxvec Hmax Hmin cap_txin cap_txout cap_vecu8 cap_h32 pt_ok pk_ok xonly_ok btctx_ok xpub_ok Hrip Hsha Hh160 Hh256 Hleaf Hbranch C07_taptree_only). Qed.
+Proof. exact (counts_c maxvec Hmax Hmin cap_txin cap_txout cap_vecu8 cap_h32 pt_ok pk_ok xonly_ok btctx_ok xpub_ok Hrip Hsha Hh160 Hh256 Hleaf Hbranch). Qed.
 (* invalid hash preimages *)
 Theorem C07_rejects_preimage : forall k v, Hsha v <> k -> VCANON TyPreSha k v = PErr EPreimage.
 Proof. intros k v H. exact (preimage_rejects Hsha k v H). Qed.
@@ -141,70 +142,45 @@ Definition deser0 := pset_deserialize 4000000 1000 1000 1000 1000 no no no no no
 Definition ser0 := pset_serialize 4000000 1000 1000 1000 1000 no no no no no nohash nohash nohash nohash tapleaf tapbranch.
 Definition hx (s : blit) : bytes := match bytes_of_hex s with Some b => b | None => [] end.
 
-(* F9.  A PSET with one output carrying a two-leaf tap tree (leaves c0/51 and c0/52 at depth 1): the decoder accepts it; its
-   re-encoding c differs from the input (the leaves are swapped), decodes, and re-encodes to the INPUT again — serialize∘
-   deserialize alternates between the two byte strings and neither is a fixpoint; the two PSETs are equal in the crate's sense
-   (same tap-tree merkle root). *)
+(* regression witnesses of the three repaired findings, evaluated by the kernel on the regenerated tables:
+   F9  (aee9a45) a PSET with one output carrying a two-leaf tap tree (leaves c0/51, c0/52 at depth 1) now re-encodes to itself;
+   F17 (f6f7db3) two pairs with the key fc 04 "pset" 01 (global elements tx-modifiable flag) are a DuplicateKey error;
+   F18 (838e50c) an output whose asset commitment value has 32 or 34 bytes is rejected. *)
 Definition f9_input : bytes := hx "70736574ff01020402000000010401000105010101fb04020000000001060801c0015101c00152010308010000000000000007fc04707365740220aaaaaaaaaaaaaaaaaaaaaaaaaaaaaaaaaaaaaaaaaaaaaaaaaaaaaaaaaaaaaaaa01040000"%lb.
-Definition f9_check : bool :=
-  match deser0 f9_input with
-  | POk p => let c := ser0 p in
-      match deser0 c with
-      | POk p' => negb (bytes_eqb (ser0 p') c) && bytes_eqb (ser0 p') f9_input && negb (bytes_eqb c f9_input) &&
-                  match p_outputs p, p_outputs p' with
-                  | [o], [o'] => match get_opt o idx_taptree, get_opt o' idx_taptree with
-                                 | Some t, Some t' => match taptree_root 4000000 tapleaf tapbranch t, taptree_root 4000000 tapleaf tapbranch t' with
-                                                      | Some r, Some r' => bytes_eqb r r' | _, _ => false end
-                                 | _, _ => false end
-                  | _, _ => false end
-      | PErr _ => false end
-  | PErr _ => false end.
-Theorem C07_taptree_fixpoint_refuted :
-  exists bs p, deser0 bs = POk p /\ exists p', deser0 (ser0 p) = POk p' /\ ser0 p' <> ser0 p /\ ser0 p' = bs.
-Proof. assert (E : f9_check = true) by (vm_compute; reflexivity). unfold f9_check in E.
-  destruct (deser0 f9_input) as [p|] eqn:D; [|discriminate]. destruct (deser0 (ser0 p)) as [p'|] eqn:D'; [|discriminate].
-  exists f9_input, p. split; [exact D|]. exists p'. split; [exact D'|].
-  repeat (apply andb_true_iff in E as [E ?]). split.
-  - intros X. rewrite X, bytes_eqb_refl in E. discriminate.
-  - now apply bytes_eqb_true. Qed.
-
-(* F17.  Two pairs with the key fc 04 "pset" 01 (global elements tx-modifiable flag) in the global map: accepted, the last wins. *)
+Example C07_two_leaf_taptree_fixpoint : match deser0 f9_input with POk p => bytes_eqb (ser0 p) f9_input | PErr _ => false end = true.
+Proof. vm_compute. reflexivity. Qed.
 Definition f17_input : bytes := hx "70736574ff01020402000000010401000105010001fb040200000007fc047073657401010107fc047073657401010700"%lb.
-Definition f17_check : bool :=
-  match deser0 f17_input with
-  | POk p => match get_opt (p_global p) (idx C07_GLOBAL_FIELDS (blit_of "elements_tx_modifiable_flag"%lb)) with Some v => bytes_eqb v [x07] | None => false end
-  | PErr _ => false end.
-Theorem C07_dup_global_flag_refuted :
-  exists bs p, deser0 bs = POk p /\ get_opt (p_global p) (idx C07_GLOBAL_FIELDS (blit_of "elements_tx_modifiable_flag"%lb)) = Some [x07].
-Proof. assert (E : f17_check = true) by (vm_compute; reflexivity). unfold f17_check in E. exists f17_input.
-  destruct (deser0 f17_input) as [p|]; [|discriminate]. exists p. split; [reflexivity|].
-  destruct (get_opt (p_global p) _) as [v|]; [|discriminate]. now apply bytes_eqb_true in E as ->. Qed.
+Example C07_dup_global_flag_rejected : deser0 f17_input = PErr EDup.
+Proof. vm_compute. reflexivity. Qed.
+Definition is_err {A} (x : pres A) : bool := match x with PErr _ => true | POk _ => false end.
+Definition gen32 : blit := blit_of "0a0101010101010101010101010101010101010101010101010101010101010101"%lb.
+Example C07_commitment_length_rejected :
+  is_err (vcanon 4000000 1000 1000 1000 1000 (fun _ => true) no no no no nohash nohash nohash nohash tapleaf tapbranch TyGenerator [] (firstn 32 (hx gen32))) = true /\
+  is_err (vcanon 4000000 1000 1000 1000 1000 (fun _ => true) no no no no nohash nohash nohash nohash tapleaf tapbranch TyGenerator [] (hx gen32 ++ [x00])) = true /\
+  is_err (vcanon 4000000 1000 1000 1000 1000 (fun _ => true) no no no no nohash nohash nohash nohash tapleaf tapbranch TyGenerator [] (hx gen32)) = false.
+Proof. vm_compute. repeat split; reflexivity. Qed.
 
-(* non-vacuity: a real PSET (one explicit output; produced by the crate) is accepted, re-encodes to itself, is STABLE (it has
-   no tap tree), hence satisfies every clause of wf_pset *)
+(* non-vacuity: a real PSET (one explicit output; produced by the crate) is accepted, re-encodes to itself and satisfies every
+   clause of wf_pset *)
 Definition sample_input : bytes := hx "70736574ff01020402000000010401000105010101fb040200000000010308475040c078cbeb9c07fc04707365740220a8221e8c3a22f07be8223603424494cba390d8ce15ddf33fde6a968e4b585cd40104017400"%lb.
 Definition sample_check : bool :=
   match deser0 sample_input with
-  | POk p => bytes_eqb (ser0 p) sample_input && Nat.eqb (length (p_outputs p)) 1 &&
-             no_taptree p
+  | POk p => bytes_eqb (ser0 p) sample_input && Nat.eqb (length (p_outputs p)) 1
   | PErr _ => false end.
 Example C07_sample_wf : exists p, deser0 sample_input = POk p /\ ser0 p = sample_input /\
   wf_pset_c 4000000 1000 1000 1000 1000 no no no no no nohash nohash nohash nohash tapleaf tapbranch p.
 Proof. assert (E : sample_check = true) by (vm_compute; reflexivity). unfold sample_check in E.
   destruct (deser0 sample_input) as [p|] eqn:D; [|discriminate]. exists p. split; [reflexivity|].
-  apply andb_true_iff in E as [E S]. apply andb_true_iff in E as [E _]. split; [now apply bytes_eqb_true|].
-  apply (C07_decoder_wf 4000000 ltac:(vm_compute; reflexivity) ltac:(vm_compute; discriminate) _ _ _ _ _ _ _ _ _ _ _ _ _ _ _ sample_input p D).
-  now apply no_taptree_stable. Qed.
+  apply andb_true_iff in E as [E _]. split; [now apply bytes_eqb_true|].
+  exact (C07_decoder_wf 4000000 ltac:(vm_compute; reflexivity) ltac:(vm_compute; discriminate) _ _ _ _ _ _ _ _ _ _ _ _ _ _ _ sample_input p D). Qed.
 
 Check (C07_rt : forall maxvec, maxvec + 1 < 2 ^ 64 -> 4 <= maxvec -> forall c1 c2 c3 c4 o1 o2 o3 o4 o5 h1 h2 h3 h4 h5 h6 p,
   wf_pset_c maxvec c1 c2 c3 c4 o1 o2 o3 o4 o5 h1 h2 h3 h4 h5 h6 p ->
   pset_deserialize maxvec c1 c2 c3 c4 o1 o2 o3 o4 o5 h1 h2 h3 h4 h5 h6 (pset_serialize maxvec c1 c2 c3 c4 o1 o2 o3 o4 o5 h1 h2 h3 h4 h5 h6 p) = POk p).
 Check (C07_fixpoint : forall maxvec, maxvec + 1 < 2 ^ 64 -> 4 <= maxvec -> forall c1 c2 c3 c4 o1 o2 o3 o4 o5 h1 h2 h3 h4 h5 h6 bs p,
   pset_deserialize maxvec c1 c2 c3 c4 o1 o2 o3 o4 o5 h1 h2 h3 h4 h5 h6 bs = POk p ->
-  taptrees_stable maxvec c1 c2 c3 c4 o1 o2 o3 o4 o5 h1 h2 h3 h4 h5 h6 p ->
   let c := pset_serialize maxvec c1 c2 c3 c4 o1 o2 o3 o4 o5 h1 h2 h3 h4 h5 h6 p in
   exists p', pset_deserialize maxvec c1 c2 c3 c4 o1 o2 o3 o4 o5 h1 h2 h3 h4 h5 h6 c = POk p' /\ pset_equiv maxvec h5 h6 p' p /\
              pset_serialize maxvec c1 c2 c3 c4 o1 o2 o3 o4 o5 h1 h2 h3 h4 h5 h6 p' = c).
 Check (C07_rejects_count : forall maxvec, maxvec + 1 < 2 ^ 64 -> 4 <= maxvec -> forall c1 c2 c3 c4 o1 o2 o3 o4 o5 h1 h2 h3 h4 h5 h6 bs p,
   pset_deserialize maxvec c1 c2 c3 c4 o1 o2 o3 o4 o5 h1 h2 h3 h4 h5 h6 bs = POk p -> sanity_check n_inputs n_outputs p = true).
-Check (C07_taptree_fixpoint_refuted : exists bs p, deser0 bs = POk p /\ exists p', deser0 (ser0 p) = POk p' /\ ser0 p' <> ser0 p /\ ser0 p' = bs).
